@@ -72,6 +72,20 @@ def observe_animated(cls, path, override, env):
             image.draw(method=override, repeat=1, check_size=False)
         sys.stdout.flush()
         data = env.take()
+        # the override was for that call only: the instance (which has no method of its
+        # own) goes on following its class, also when the class-wide method changes now
+        own = vars(cls).get("_render_method")
+        try:
+            for m in ("whole", "lines"):
+                cls.set_render_method(m)
+                used = observe_method(image)
+                if used != m:
+                    observe_animated.after = "after an animated draw(method=%r) the instance renders with %s although its class was just set to %s" % (override, used, m)
+                    break
+            else:
+                observe_animated.after = None
+        finally:
+            cls.set_render_method(own)
     finally:
         image.close()
     return data.count(b"\x1b]1337;File=") / 2
@@ -365,6 +379,9 @@ def run_history(seed, res, env, steps):
                         per_frame = observe_animated(n, anim_file, ov, env)
                         res.count("animated draws with a per-call method override")
                         want_pf = 3 if ov == "lines" else 1
+                        if observe_animated.after:
+                            fail("method-override-sticks", "%s: %s" % (nm, observe_animated.after))
+                            return
                         if per_frame != want_pf:
                             fail("method-override", "%s: animated draw(method=%r) wrote %s image commands per frame, the override asks for %d (effective method %s)" % (nm, ov, per_frame, want_pf, eff(n, "method")))
                             return
